@@ -317,6 +317,8 @@ func run(w http.ResponseWriter, r *http.Request, o *Obs, h *H) {
 				w.Header().Set(s.K, s.V)
 			case "Del":
 				w.Header().Del(s.K)
+			case "Panic":
+				panic("harness: handler program panics")
 			case "Nest":
 				if Nested != nil {
 					Nested()
@@ -328,15 +330,19 @@ func run(w http.ResponseWriter, r *http.Request, o *Obs, h *H) {
 
 // Req describes a request.
 type Req struct {
-	Method string
-	Path   string
-	Host   string
-	Header map[string]string
-	Fault  *Fault
+	Method  string
+	Path    string
+	RawPath string // URL.RawPath, "" = canonical
+	Host    string
+	Header  map[string]string
+	Fault   *Fault
 }
 
 func (q Req) String() string {
 	s := fmt.Sprintf("%s %q", q.Method, q.Path)
+	if q.RawPath != "" {
+		s += " rawpath=" + q.RawPath
+	}
 	if q.Host != "" {
 		s += " host=" + q.Host
 	}
@@ -358,7 +364,7 @@ func (q Req) String() string {
 func NewRequest(q Req, o *Obs) *http.Request {
 	r := &http.Request{
 		Method: q.Method,
-		URL:    &url.URL{Path: q.Path},
+		URL:    &url.URL{Path: q.Path, RawPath: q.RawPath},
 		Proto:  "HTTP/1.1", ProtoMajor: 1, ProtoMinor: 1,
 		Header: http.Header{},
 		Host:   q.Host,
